@@ -2,7 +2,7 @@
    (table + trailer, or cross-reference stream object) followed by its startxref marker is read by
    [read_section] in any context; and the whole-file theorem for the plain save:
        strict_load (so_bytes (save x d)) = SOk (sdoc_of x d)
-   for both cross-reference formats, for every document of the domain [strict_savable] whose file
+   for both cross-reference formats, for every document of the domain [strict_savable_core] whose file
    is below 4 GiB.  The explicit result [sdoc_of] lists the recovered objects (normal forms), the
    trailer, the cross-reference entries, the object located by each entry and the spans of the
    tiling. *)
@@ -314,18 +314,18 @@ Qed.
 (* C01's [savable] and the two requirements the strict reader adds (both are rules of ISO 32000-1
    7.5.2 that lopdf's writer leaves to the caller): the version has the form digits.digits, and the
    binary comment holds at least four bytes *)
-Record strict_savable (d : doc) : Prop := {
-  ss_savable : savable d;
+Record strict_savable_core (d : doc) : Prop := {
+  ss_savable : savable_core d;
   ss_version : SR.version_ok (d_version d) = true;
   ss_mark : (4 <= length (d_binary_mark d))%nat;
 }.
 
 Definition unskipped (objs : objmap) : Prop := Forall (fun io : oid * obj => skipped (snd io) = false) objs.
 
-Lemma savable_unskipped d : savable d -> unskipped (d_objects d).
+Lemma savable_unskipped d : savable_core d -> unskipped (d_objects d).
 Proof. intro S. pose proof (sv_objects d S) as H. eapply Forall_impl; [|exact H]. intros io [_ [_ [_ K]]]. exact K. Qed.
 
-Lemma savable_obj_dom d : savable d -> Forall obj_dom (d_objects d).
+Lemma savable_obj_dom d : savable_core d -> Forall obj_dom (d_objects d).
 Proof.
   intro S. pose proof (sv_objects d S) as H. eapply Forall_impl; [|exact H]. intros io [_ [K1 [K2 _]]].
   split; [unfold Parser.u16_max in K1; exact K1 | exact K2].
@@ -342,7 +342,7 @@ Definition rev_table (d : doc) (len : N) : SR.revision :=
      SR.r_p := len - SR.lenN (marker x); SR.r_q := len |}.
 
 Definition sdoc_table (d : doc) : SR.sdoc :=
-  let file := so_bytes (save XTable d) in
+  let file := so_bytes (save_core XTable d) in
   let len := SR.lenN file in
   let rv := rev_table d len in
   let locs := located_of (hm_len d) (d_objects d) in
@@ -374,17 +374,17 @@ Lemma hm_len_pos d : 0 < hm_len d.
 Proof. unfold hm_len, header_bytes. rewrite !blen_app. change (blen (bs "%PDF-")) with 5. lia. Qed.
 
 Theorem strict_load_table d :
-  strict_savable d -> small_file XTable d ->
-  SR.strict_load (so_bytes (save XTable d)) = SR.SOk (sdoc_table d).
+  strict_savable_core d -> small_file_core XTable d ->
+  SR.strict_load (so_bytes (save_core XTable d)) = SR.SOk (sdoc_table d).
 Proof.
   intros [Sv Hv Hm4] Hsmall.
   pose proof (save_table_ok d Sv) as Hok.
-  destruct (save_ok_shape XTable d Hok) as [mid [Hbytes Hmid]].
+  destruct (save_core_shape XTable d Hok) as [mid [Hbytes Hmid]].
   pose proof (sv_numbers d Sv) as Hinc. pose proof (sv_max_id d Sv) as Hmax.
   pose proof (xmap_shape d Hinc) as Ex. pose proof (body_shape d) as Ebody.
   unfold sdoc_table, rev_table.
-  unfold small_file in Hsmall.
-  set (file := so_bytes (save XTable d)) in *.
+  unfold small_file_core in Hsmall.
+  set (file := so_bytes (save_core XTable d)) in *.
   set (objs := d_objects d) in *. set (HM := header_bytes d ++ mark_bytes d) in *.
   set (n := blen (body_of d)) in *. set (t := trailer_table d) in *. set (size := d_max_id d + 1) in *.
   set (x := entries_of (hm_len d) objs) in *.
